@@ -58,7 +58,7 @@ class Env {
   uint64_t seed = 0;
   double deadline = 0;            // absolute monotonic seconds; 0 = none
   // replay of one case: "--only <stage>:<index>"
-  bool only = false; std::string onlyStage; uint64_t onlyIndex = 0;
+  bool only = false; std::string onlyStage; uint64_t onlyIndex = 0; bool onlyWithPrefix = false;   // --with-prefix: also run the preceding cases of the block (address/history dependent failures)
   std::string replayArg;          // free-form (histories)
   double timeoutScale = 1.0;
 
